@@ -86,6 +86,7 @@ def _install() -> None:
 
     def sim_init(self: Any, sc: dict) -> None:
         orig_init(self, sc)
+        _reset_slots()
         cluster = self.cluster
 
         def stale_merge(req: dict) -> Any:
@@ -271,6 +272,113 @@ def _install() -> None:
         if rec is not None:
             rec["spawning_delays"] = [float(d) for d in out]
         return out
+
+
+    # ---- the slots of `memory.running_daemons`, seen from outside (tie "L" of c06.py) ------------------------------------
+    # One history per (DaemonsMemory, handler id): a label at every call of spawn_daemons for a matching handler (`spawn`),
+    # at every `stopper.set(...)` of one of its invocations (`tell`; with DAEMON_ABANDONED: `abandon`; the epilogue's DONE is
+    # not a label), at the end of `_runner` (`exit n`), and a pseudo-label `report` after a stop_daemons call that was given
+    # exactly one daemon (did it report a delay?). Right after each label the REAL state is read: which invocation
+    # `memory.running_daemons[id]` holds, which invocations' `_runner` has not ended, their stoppers' flags.
+    from kopf._cogs.aiokits import aioenums
+    from kopf._core.engines import daemons as kdaemons
+    from kopf._core.intents import stoppers as kstoppers
+    slots: dict[str, Any] = {"events": [], "mems": [], "by_stopper": {}, "hist": {}, "keep": []}
+    ABANDONED = kstoppers.DaemonStoppingReason.DAEMON_ABANDONED
+    DONE = kstoppers.DaemonStoppingReason.DONE
+
+    def _mem_index(mem: Any) -> int:
+        for k, m in enumerate(slots["mems"]):
+            if m is mem:
+                return k
+        slots["mems"].append(mem)      # kept alive: identities are not re-used within a scenario
+        return len(slots["mems"]) - 1
+
+    def _hist(mem: Any, hid: str) -> dict:
+        key = (_mem_index(mem), str(hid))
+        if key not in slots["hist"]:
+            slots["hist"][key] = {"key": key, "mem": mem, "hid": hid, "insts": []}
+        return slots["hist"][key]
+
+    def _snapshot(hist: dict) -> dict:
+        rec = hist["mem"].running_daemons.get(hist["hid"])
+        slot = None
+        if rec is not None:
+            inst = slots["by_stopper"].get(id(rec.stopper))
+            slot = inst["n"] if inst is not None and inst["hist"] is hist else -1
+        return {"slot": slot,
+                "live": [[i["n"], bool(i["stopper"].is_set()), bool(i["stopper"].is_set(reason=ABANDONED))]
+                         for i in hist["insts"] if not i["exited"]]}
+
+    def _emit(hist: dict, label: list, obs: Any = "now", **extra: Any) -> None:
+        try:
+            import asyncio
+            t = asyncio.get_running_loop().time()
+        except RuntimeError:
+            t = None
+        slots["events"].append({"mem": hist["key"][0], "hid": hist["key"][1], "label": label, "t": t,
+                                "obs": _snapshot(hist) if obs == "now" else obs, **extra})
+
+    orig_spawn, orig_stop, orig_runner, orig_set = kdaemons.spawn_daemons, kdaemons.stop_daemons, kdaemons._runner, aioenums.FlagSetter.set
+
+    async def spawn_daemons(**kw: Any) -> Any:
+        mem, dm, handlers = kw["memory"], kw["daemons"], list(kw["handlers"])
+        loops = mem.live_fresh_body is not None and not mem.operator_exiting and not mem.object_gone and dm is mem.running_daemons
+        before = {h.id: dm.get(h.id) for h in handlers}
+        out = await orig_spawn(**kw)        # (no suspension point inside: the new tasks have not run yet)
+        if loops:
+            for k, h in enumerate(handlers):
+                hist = _hist(mem, h.id)
+                now = dm.get(h.id)
+                if now is not None and now is not before[h.id] and id(now.stopper) not in slots["by_stopper"]:
+                    inst = {"n": len(hist["insts"]), "stopper": now.stopper, "daemon": now, "hist": hist, "exited": False}
+                    hist["insts"].append(inst)
+                    slots["by_stopper"][id(now.stopper)] = inst      # (the stopper is kept alive by `inst`)
+                # the same id several times in one call (stacked registrations that all match): only the last is observed
+                last = all(h2.id != h.id for h2 in handlers[k + 1:])
+                _emit(hist, ["spawn"], "now" if last else None)
+        return out
+
+    async def stop_daemons(**kw: Any) -> Any:
+        given = list(kw["daemons"].values())
+        out = await orig_stop(**kw)
+        if len(given) == 1:
+            inst = slots["by_stopper"].get(id(given[0].stopper))
+            if inst is not None:
+                _emit(inst["hist"], ["report"], {"noDelay": not list(out)})
+        return out
+
+    async def _runner(**kw: Any) -> Any:
+        try:
+            return await orig_runner(**kw)
+        finally:
+            inst = slots["by_stopper"].get(id(kw["cause"].stopper))
+            if inst is not None:
+                inst["exited"] = True
+                _emit(inst["hist"], ["exit", inst["n"]])
+
+    def flag_set(self: Any, reason: Any = None) -> None:
+        orig_set(self, reason)
+        inst = slots["by_stopper"].get(id(self))
+        if inst is not None and inst["stopper"] is self and not (reason is not None and reason == DONE):
+            abandon = reason is not None and ABANDONED in reason
+            _emit(inst["hist"], ["abandon"] if abandon else ["tell"], why=str(getattr(reason, "name", reason)))
+
+    orig_trace = observe.Observer.trace
+
+    def trace(self: Any) -> dict:
+        tr = orig_trace(self)
+        tr["slots"] = list(slots["events"])
+        return tr
+
+    def _reset_slots() -> None:
+        slots["events"], slots["mems"], slots["by_stopper"], slots["hist"] = [], [], {}, {}
+
+    kdaemons.spawn_daemons = spawn_daemons  # type: ignore[assignment]
+    kdaemons.stop_daemons = stop_daemons  # type: ignore[assignment]
+    kdaemons._runner = _runner  # type: ignore[assignment]
+    aioenums.FlagSetter.set = flag_set  # type: ignore[method-assign]
+    observe.Observer.trace = trace  # type: ignore[method-assign]
 
     processing.process_resource_causes = process_resource_causes  # type: ignore[assignment]
     processing.process_spawning_cause = process_spawning_cause  # type: ignore[assignment]
